@@ -417,7 +417,7 @@ pub fn run_debug(cap: &mut Capture, c: &DbgCase) -> DbgObs {
         Outcome::Fuel => "fuel".to_string(),
         Outcome::Panic(m) => {
             return DbgObs {
-                line: format!("panic | {} | {}", pcs.len(), ncmds),
+                line: "panic".to_string(),
                 program: { let _ = m; "panic".to_string() },
                 iterations,
                 executed: pcs.len(),
@@ -570,7 +570,11 @@ pub fn run_c09(o: &crate::Opts) {
         if samples.len() < 2 && rng.chance(1, 50) {
             samples.push(format!("{{\"program_kind\":\"{}\",\"words\":{},\"script\":{:?},\"executed\":{},\"commands\":{}}}", p.kind, n, c.script(), obs.executed, obs.commands));
         }
-        sink.put(&c.request(), &format!("{} | {}", obs.line, same));
+        if obs.line == "panic" {
+            sink.put(&c.request(), "panic | -");
+        } else {
+            sink.put(&c.request(), &format!("{} | {}", obs.line, same));
+        }
     }
     let kinds_json: Vec<String> = kinds.iter().map(|(k, v)| format!("\"{}\":{}", k, v)).collect();
     let n_cases = sink.n;
@@ -790,7 +794,7 @@ pub fn run_prop(o: &crate::Opts, tag: &'static str) {
             match DbgCase::parse(line, tag) {
                 Some(c) => {
                     let obs = run_debug(&mut cap, &c);
-                    let v = verdict(&mut cap, tag, &c, &obs);
+                    let v = if obs.line == "panic" { "-".to_string() } else { verdict(&mut cap, tag, &c, &obs) };
                     sink.put(line, &format!("{} | {}", obs.line, v));
                 }
                 None => sink.put(line, "bad-request"),
@@ -809,7 +813,7 @@ pub fn run_prop(o: &crate::Opts, tag: &'static str) {
     for _ in 0..per {
         let (c, kind) = gen_case(&mut rng, tag);
         let obs = run_debug(&mut cap, &c);
-        let v = verdict(&mut cap, tag, &c, &obs);
+        let v = if obs.line == "panic" { "-".to_string() } else { verdict(&mut cap, tag, &c, &obs) };
         *kinds.entry(format!("{}:{}", kind, obs.line.split(' ').next().unwrap_or(""))).or_default() += 1;
         *verdicts.entry(v.clone()).or_default() += 1;
         if samples.len() < 2 && rng.chance(1, 40) {
